@@ -22,7 +22,7 @@ from mpire.exception import populate_exception
 from mpire.insights import WorkerInsights
 from mpire.params import check_map_parameters, CPUList, WorkerMapParams, WorkerPoolParams
 from mpire.progress_bar import ProgressBarHandler
-from mpire.signal import DisableKeyboardInterruptSignal
+from mpire.signal import DelayedKeyboardInterrupt, DisableKeyboardInterruptSignal
 from mpire.tqdm_utils import get_tqdm, TqdmManager
 from mpire.utils import apply_numpy_chunking, chunk_tasks, set_cpu_affinity
 from mpire.worker import MP_CONTEXTS, worker_factory
@@ -756,7 +756,9 @@ class WorkerPool:
             # Start tqdm manager if a progress bar is desired. Will only start one when not already started. This has to
             # be done before starting the workers in case nested pools are used
             if progress_bar:
-                tqdm_manager_owner = TqdmManager.start_manager(self.pool_params.use_dill)
+                # Determine ownership up front, such that the manager is stopped again when starting it is interrupted
+                tqdm_manager_owner = TqdmManager.LOCK is None
+                TqdmManager.start_manager(self.pool_params.use_dill)
 
             # Start workers if there aren't any. If they already exist check if we need to pass on new parameters
             if self._workers and not self._worker_comms.is_initialized():
@@ -854,29 +856,32 @@ class WorkerPool:
                     self._handle_exception()
 
         finally:
-            # When we didn't make it to the end without having terminated already (e.g., the generator was closed before
-            # all results were obtained), workers can still be busy with tasks of this call that nobody is waiting for
-            # anymore, and the order mode of this call would leak into the next one
-            if not completed:
-                self.terminate()
+            # Clean up. An interrupt that arrives while we're doing this is postponed until we're done, otherwise part
+            # of the clean up would be skipped
+            with DelayedKeyboardInterrupt():
+                # When we didn't make it to the end without having terminated already (e.g., the generator was closed
+                # before all results were obtained), workers can still be busy with tasks of this call that nobody is
+                # waiting for anymore
+                if not completed:
+                    self.terminate()
 
-            # The order mode belongs to this call. An ordered imap can still be handing out buffered results long after
-            # this (inner) call has finished, and the next call must not inherit its order mode
-            self._worker_comms.clear_keep_order()
+                # The order mode belongs to this call. An ordered imap can still be handing out buffered results long
+                # after this (inner) call has finished, and the next call must not inherit its order mode
+                self._worker_comms.clear_keep_order()
 
-            if tqdm_manager_owner:
-                tqdm.set_lock(original_tqdm_lock)
-                TqdmManager.stop_manager()
+                if tqdm_manager_owner:
+                    tqdm.set_lock(original_tqdm_lock)
+                    TqdmManager.stop_manager()
 
-            if imap_iterator is not None:
-                imap_iterator.remove_from_cache()
+                if imap_iterator is not None:
+                    imap_iterator.remove_from_cache()
 
-            # When starting or stopping the progress bar handler got interrupted, its thread can still be running
-            if self._progress_bar_handler is not None and self._progress_bar_handler.thread is not None:
-                self._progress_bar_handler.__exit__(KeyboardInterrupt)
-            self._progress_bar_handler = None
-            self._map_running = False
-            self._worker_comms.reset_progress()
+                # When starting or stopping the progress bar handler got interrupted, its thread can still be running
+                if self._progress_bar_handler is not None and self._progress_bar_handler.thread is not None:
+                    self._progress_bar_handler.__exit__(KeyboardInterrupt)
+                self._progress_bar_handler = None
+                self._map_running = False
+                self._worker_comms.reset_progress()
 
         # Log insights
         if self.pool_params.enable_insights:
